@@ -11,14 +11,14 @@ def reset(e):
     return e.get("e") == "Gen"
 
 
-def model_check(ctx, nshards, items, conc, fix6=True, fix7=True):
+def model_check(ctx, nshards, items, conc, fix6=True, fix7=True, fix11=True):
     vlib.stage_specs(ctx.wd, [])
     name = "MC_Backup_%d_%s_c%d" % (nshards, "".join(map(str, items)), conc)
     with open(os.path.join(ctx.wd, name + ".tla"), "w") as f:
         f.write("---- MODULE %s ----\nEXTENDS Backup\nMCItems == <<%s>>\n====\n" % (name, ", ".join(map(str, items))))
     with open(os.path.join(ctx.wd, name + ".cfg"), "w") as f:
-        f.write("SPECIFICATION BSpec\nCONSTANTS\n  Shards = {%s}\n  ItemsIn <- MCItems\n  LoadConc = %d\n  FIXD6 = %s\n  FIXD7 = %s\n" %
-                (", ".join(str(i + 1) for i in range(nshards)), conc, str(fix6).upper(), str(fix7).upper()) +
+        f.write("SPECIFICATION BSpec\nCONSTANTS\n  Shards = {%s}\n  ItemsIn <- MCItems\n  LoadConc = %d\n  FIXD6 = %s\n  FIXD7 = %s\n  FIXD11 = %s\n" %
+                (", ".join(str(i + 1) for i in range(nshards)), conc, str(fix6).upper(), str(fix7).upper(), str(fix11).upper()) +
                 "".join("INVARIANT %s\n" % i for i in ("C12_NoSilentPartial", "C12_CrashSafe", "C05_StoreLoads", "C11_DamageDetected", "C11_MultiShard")) +
                 "CHECK_DEADLOCK FALSE\n")
     r = vlib.run_tlc(name + ".tla", name + ".cfg", ctx.wd, timeout=1500)
